@@ -37,12 +37,19 @@ import (
 //go:embed victim.gno.txt
 var victimSrc string
 
+//go:embed victim_extra.gno.txt
+var victimExtraSrc string
+
 //go:embed ptypes.gno.txt
 var ptypesSrc string
+
+//go:embed alib.gno.txt
+var alibSrc string
 
 const (
 	victimPath = "gno.land/r/verif/victim"
 	ptypesPath = "gno.land/p/verif/ptypes"
+	alibPath   = "gno.land/p/verif/alib" // attacker-authored /p/ library
 )
 
 var r *vk.Run
@@ -185,9 +192,21 @@ func addFinding(key string, detail map[string]any) {
 		if findings[i].key == key {
 			if c, ok := detail["context"].(string); ok {
 				cs, _ := findings[i].detail["contexts"].([]string)
-				cs = append(cs, c)
+				if !contains(cs, c) {
+					cs = append(cs, c)
+				}
 				sort.Strings(cs)
 				findings[i].detail["contexts"] = cs
+			}
+			if pp, ok := detail["programs_that_got_through"].([]string); ok {
+				ps, _ := findings[i].detail["programs_that_got_through"].([]string)
+				for _, x := range pp {
+					if !contains(ps, x) {
+						ps = append(ps, x)
+					}
+				}
+				sort.Strings(ps)
+				findings[i].detail["programs_that_got_through"] = ps
 			}
 			return
 		}
@@ -197,6 +216,15 @@ func addFinding(key string, detail map[string]any) {
 		delete(detail, "context")
 	}
 	findings = append(findings, finding{key, detail})
+}
+
+func contains(l []string, s string) bool {
+	for _, x := range l {
+		if x == s {
+			return true
+		}
+	}
+	return false
 }
 
 func noteState(s snap) {
@@ -264,10 +292,24 @@ func judge(p program, ctx string, res rx.Res, before, after snap, e *rx.Env, g *
 	}
 	if len(d) > 0 {
 		r.Outcome("VIOLATION forbidden write changed the victim")
+		if p.class != "" {
+			dd := det()
+			dd["programs_that_got_through"] = []string{p.form}
+			addFinding("victim-state-changed:"+p.class, dd)
+			return
+		}
 		addFinding("victim-state-changed:"+p.label(), det())
 		return
 	}
 	r.Outcome("tx ok, victim unchanged")
+}
+
+func basePkgs() []rx.Pkg {
+	return []rx.Pkg{
+		{Path: ptypesPath, Files: map[string]string{"ptypes.gno": ptypesSrc}},
+		{Path: victimPath, Files: map[string]string{"victim.gno": victimSrc, "victim_extra.gno": victimExtraSrc}},
+		{Path: alibPath, Files: map[string]string{"alib.gno": alibSrc}},
+	}
 }
 
 func main() {
@@ -276,9 +318,15 @@ func main() {
 	show := flag.Bool("show", false, "print every program outcome")
 	dump := flag.Bool("dump", false, "print the attacker realm's objects and new victim objects after the crossing call")
 	gcp := flag.Int("gc", 30, "GC percent")
+	noplain := flag.Bool("noplain", false, "diagnostics: skip the plain (unwrapped) programs")
+	nowrap := flag.Bool("nowrap", false, "diagnostics: skip the wrapped classes")
+	probe := flag.String("probe", "", "diagnostics: run a hand-written scenario file (see probe.go) and exit")
 	r = vk.New("exploration")
 	debug.SetGCPercent(*gcp)
-	r.SetBudget(200*time.Second, 20*time.Minute)
+	if *probe != "" {
+		runProbe(*probe)
+	}
+	r.SetBudget(400*time.Second, 25*time.Minute)
 	depth := 1
 	if r.Thorough() {
 		depth = 2
@@ -287,6 +335,14 @@ func main() {
 		depth = *depthF
 	}
 	progs := allPrograms(depth)
+	allProgs := progs
+	depth1Progs := progs
+	if depth != 1 {
+		depth1Progs = allPrograms(1)
+	}
+	if *noplain {
+		progs = nil
+	}
 	if *only != "" {
 		var f []program
 		for _, p := range progs {
@@ -296,10 +352,7 @@ func main() {
 		}
 		progs = f
 	}
-	pkgs := []rx.Pkg{
-		{Path: ptypesPath, Files: map[string]string{"ptypes.gno": ptypesSrc}},
-		{Path: victimPath, Files: map[string]string{"victim.gno": victimSrc}},
-	}
+	pkgs := basePkgs()
 	envs := make(chan *rx.Env, 64)
 	getEnv := func() *rx.Env {
 		select {
@@ -314,7 +367,8 @@ func main() {
 		return e
 	}
 	envs <- getEnv()
-	var ctlOK, ctlChanged atomic.Int64
+	var ctlOK, ctlChanged, dumpSeen atomic.Int64
+	var dumpBlind []string
 	var showMu sync.Mutex
 	r.ParFor(len(progs), func(i int) {
 		p := progs[i]
@@ -349,6 +403,7 @@ func main() {
 			dep := e.AddPkg(path, map[string]string{"atk.gno": src})
 			afterDep := snapshot(e, victimPath)
 			if !dep.OK {
+				staticReject.Store(p.code, true)
 				judge(p, "realm-deploy", dep, before, afterDep, e, g)
 				note("realm-deploy", dep, diff(before, afterDep))
 			} else {
@@ -422,6 +477,15 @@ func main() {
 				if res.OK {
 					ctlOK.Add(1)
 				}
+				if res.OK {
+					if strings.Contains(res.Data, "SEEN") {
+						dumpSeen.Add(1)
+					} else {
+						mu.Lock()
+						dumpBlind = append(dumpBlind, p.label())
+						mu.Unlock()
+					}
+				}
 				if res.OK && len(d) > 0 {
 					ctlChanged.Add(1)
 					r.Outcome("control: same statement with the victim's own authority changes the state")
@@ -440,8 +504,13 @@ func main() {
 			showMu.Unlock()
 		}
 	})
+	wcov := map[string]any{}
+	if !*nowrap {
+		wcov = runWrapped(allProgs, depth1Progs, *only, *show, getEnv, func(e *rx.Env) { envs <- e })
+	}
 	sort.Slice(findings, func(i, j int) bool { return findings[i].key < findings[j].key })
 	for _, f := range findings {
+		fmt.Println("FINDING:", f.key) // complete list (vk prints only the first 20 VIOLATION lines)
 		r.Violation(f.key, f.detail)
 	}
 	sort.Strings(invalid)
@@ -451,6 +520,10 @@ func main() {
 	}
 	for _, s := range ctlNoChg {
 		fmt.Println("CONTROL-WITHOUT-EFFECT:", s)
+	}
+	sort.Strings(dumpBlind)
+	for _, s := range dumpBlind {
+		fmt.Println("DUMP-BLIND (the victim's Dump() does not show this write; persisted-state comparison still covers it):", s)
 	}
 	nw := 0
 	for _, p := range progs {
@@ -467,8 +540,13 @@ func main() {
 		"victim state = every persisted object under the victim's package id, bookkeeping fields masked",
 		"writes the interrealm specification allows (victim-minted closure, /p/ method on a victim-owned receiver incl. method value/expression) are controls, not attacks",
 	}
-	r.Finish("every generated attacker program (base x selector chain x write form) in 3 contexts + control inside a victim copy", !r.Capped(), map[string]any{
+	cov := map[string]any{
 		"programs": len(progs), "write_programs": nw, "transactions": nTx.Load(), "distinct_victim_states_seen": nStates.Load(), "chain_depth": depth,
 		"controls_changed_state": ctlChanged.Load(), "invalid_programs": len(invalid), "controls_without_effect": len(ctlNoChg),
-	})
+		"controls_seen_by_victim_dump": dumpSeen.Load(), "controls_not_seen_by_victim_dump": len(dumpBlind),
+	}
+	for k, v := range wcov {
+		cov[k] = v
+	}
+	r.Finish("every generated attacker program (base x selector chain x write form) in 3 contexts + control inside a victim copy; every wrapper (recover / callback / hand-out / type pun) x payload x context against its no-op reference", !r.Capped(), cov)
 }
